@@ -47,6 +47,7 @@ func TestC07(t *testing.T) {
 			"dropColumn":  func(t *rapid.T) { mc.ActDropColumn(t) },
 			"lateColumn":  func(t *rapid.T) { mc.ActLateColumn(t) },
 			"createIndex": func(t *rapid.T) { mc.ActCreateIndex(t) },
+			"dropIndex":   func(t *rapid.T) { mc.ActDropIndex(t) },
 			"createSortIndexOrTrigger": func(t *rapid.T) {
 				// computed columns that are NOT bitmap indexes also sit in the column registry; columns
 				// created after them must still round-trip
